@@ -232,6 +232,18 @@ func amplifiers() []Case {
 		d, _ := p.Bytes()
 		out = append(out, Case{Desc: fmt.Sprintf("ICC profile with %d tags", n+1), Target: "icc", Data: d})
 	}
+	// many tags (distinct signatures) all sharing one big data block
+	for _, n := range []int{300, 3000} {
+		p := build.ICC{Header: build.DefaultHeader()}
+		big := make([]byte, 20*n)
+		copy(big, "text\x00\x00\x00\x00")
+		p.Tags = append(p.Tags, build.ICCTag{Sig: 0x63707274, Data: big, Share: -1}, build.ICCTag{Sig: 0x64657363, Data: build.TextDesc("shared block"), Share: -1})
+		for i := 0; i < n; i++ {
+			p.Tags = append(p.Tags, build.ICCTag{Sig: 0x42000000 + uint32(i), Share: 0})
+		}
+		d, _ := p.Bytes()
+		out = append(out, Case{Desc: fmt.Sprintf("ICC profile with %d tags all sharing one %d-byte block", n+2, len(big)), Target: "icc", Data: d})
+	}
 	// mluc with many records (distinct languages), each with its own short string
 	for _, n := range []int{500, 5000} {
 		recs := make([]build.MlucRec, n)
